@@ -87,8 +87,12 @@ func load(rules []*system.Rule) {
 	if _, err := system.LoadRules(rules); err != nil {
 		hx.Fatal("LoadRules: %v", err)
 	}
-	if got := len(system.GetRules()); got != len(rules) {
-		hx.Fatal("%d of %d system rules in force (the scenario contains an invalid rule)", got, len(rules))
+	// the scenario generators only produce valid rules (a scenario error otherwise); whether the module then really
+	// enforces every one of them is what the recorded decisions are judged for - not something to assume here
+	for _, r := range rules {
+		if err := system.IsValidSystemRule(r); err != nil {
+			hx.Fatal("the scenario contains an invalid system rule: %v", err)
+		}
 	}
 }
 
